@@ -27,6 +27,11 @@ Fixpoint st (pos : nat) (tr : list event) : option bool :=
   end.
 
 Definition retry_kind (k : evk) : bool := match k with KRetryScheduled | KRetry => true | _ => false end.
+(* the kinds a retry policy's own verdict is made of are handled separately from the rest *)
+Definition plain_kind (k : evk) : bool :=
+  match k with KRetryScheduled | KRetry | KPolFailure | KPolSuccess | KAbort | KRetriesExceeded => false | _ => true end.
+Lemma plain_not_retry k : plain_kind k = true -> retry_kind k = false.
+Proof. destruct k; cbn; intros H; try reflexivity; discriminate. Qed.
 
 Lemma stp_neutral pos e s : retry_kind (e_kind e) = false \/ e_pos e <> pos -> stp pos e s = s.
 Proof.
@@ -44,7 +49,7 @@ Section Gen.
   Hypothesis same_frame : forall w w', w_trace w' = w_trace w -> R w w'.
   Hypothesis same_emit : forall w k q o aux, N k q -> R w (emit w k q o aux).
   Hypothesis same_stamp : forall w c, R w (stamp w c).
-  Hypothesis N_plain : forall k q, retry_kind k = false -> N k q.
+  Hypothesis N_plain : forall k q, plain_kind k = true -> N k q.
 
 Lemma same_semit w c k q o aux : N k q -> R w (stamp (emit w k q o aux) c).
 Proof. intros H. eapply same_trans; [apply same_emit, H|apply same_stamp]. Qed.
@@ -142,9 +147,9 @@ Proof.
   eapply same_trans; [|apply IH]. apply same_emit. apply N_plain. reflexivity.
 Qed.
 
-Lemma breaker_layer_quiet q inst inner : quiet inner -> quiet (breaker_layer q inst inner).
+Lemma breaker_layer_quiet q inst inner : N KPolFailure q -> N KPolSuccess q -> quiet inner -> quiet (breaker_layer q inst inner).
 Proof.
-  intros Hi c w. unfold breaker_layer, set_breaker.
+  intros Hpf Hps Hi c w. unfold breaker_layer, set_breaker.
   destruct (nth inst (w_breakers w) _) as [cfg s]. destruct (try_acquire conc_impl cfg s (w_now w)) as [[ok s1] evs].
   match goal with |- context [emit_bevents ?x q evs] => assert (S1 : R w (emit_bevents x q evs)) by
     (eapply same_trans; [|apply same_emit_bevents]; apply same_frame; reflexivity); set (w1 := emit_bevents x q evs) in * end.
@@ -156,8 +161,8 @@ Proof.
   { intros w3 s3 evs' S3. eapply same_trans; [exact S1|]. eapply same_trans; [exact S2|]. eapply same_trans; [exact S3|].
     eapply same_trans; [|apply same_emit_bevents]. apply same_frame; reflexivity. }
   destruct (is_failure (b_fpol cfg) (pr_out r)).
-  - destruct (record conc_impl cfg s2 _ false _) as [s3 evs']. cbn [snd]. apply Hfin. apply same_ev. apply N_plain. reflexivity.
-  - destruct (record conc_impl cfg s2 _ true _) as [s3 evs']. cbn [snd]. apply Hfin. apply same_ev. apply N_plain. reflexivity.
+  - destruct (record conc_impl cfg s2 _ false _) as [s3 evs']. cbn [snd]. apply Hfin. apply same_ev. exact Hpf.
+  - destruct (record conc_impl cfg s2 _ true _) as [s3 evs']. cbn [snd]. apply Hfin. apply same_ev. exact Hps.
 Qed.
 
 Lemma limiter_layer_quiet q inst mw inner : quiet inner -> quiet (limiter_layer q inst mw inner).
@@ -194,14 +199,14 @@ Proof.
   cbn [snd] in *. eapply same_trans; [exact S1|]. eapply same_trans; [exact S2|apply same_frame; reflexivity].
 Qed.
 
-Lemma fallback_layer_quiet q cfg inner : quiet inner -> quiet (fallback_layer q cfg inner).
+Lemma fallback_layer_quiet q cfg inner : N KPolFailure q -> N KPolSuccess q -> quiet inner -> quiet (fallback_layer q cfg inner).
 Proof.
-  intros Hi c w. unfold fallback_layer. pose proof (Hi c w) as S1. destruct (inner c w) as [r w1]. cbn [snd] in S1.
+  intros Hpf Hps Hi c w. unfold fallback_layer. pose proof (Hi c w) as S1. destruct (inner c w) as [r w1]. cbn [snd] in S1.
   destruct (is_failure (fb_fpol cfg) (pr_out r)).
-  - set (w2 := ev_with_result w1 c KPolFailure q _). assert (S2 : R w w2) by (eapply same_trans; [exact S1|apply same_ev; apply N_plain; reflexivity]).
+  - set (w2 := ev_with_result w1 c KPolFailure q _). assert (S2 : R w w2) by (eapply same_trans; [exact S1|apply same_ev; exact Hpf]).
     cbn [pr_succ with_failure]. destruct (is_canceled w2 c); [exact S2|].
     cbn [snd]. eapply same_trans; [exact S2|apply same_emit; apply N_plain; reflexivity].
-  - cbn [pr_succ with_done]. cbn [snd]. eapply same_trans; [exact S1|apply same_ev; apply N_plain; reflexivity].
+  - cbn [pr_succ with_done]. cbn [snd]. eapply same_trans; [exact S1|apply same_ev; exact Hps].
 Qed.
 
 Lemma cache_layer_quiet q inst cfg inner : quiet inner -> quiet (cache_layer q inst cfg inner).
@@ -262,32 +267,32 @@ Proof.
   eapply same_trans; eassumption.
 Qed.
 
-Lemma same_retry_on_failure q cfg c r w : R w (snd (retry_on_failure cfg q c r w)).
+Lemma same_retry_on_failure q cfg c r w : N KPolFailure q -> N KAbort q -> N KRetriesExceeded q -> R w (snd (retry_on_failure cfg q c r w)).
 Proof.
-  unfold retry_on_failure.
-  set (w0 := ev_with_result w c KPolFailure q r). assert (S0 : R w w0) by (apply same_ev; apply N_plain; reflexivity).
+  intros Hpf Hab Hex. unfold retry_on_failure.
+  set (w0 := ev_with_result w c KPolFailure q r). assert (S0 : R w w0) by (apply same_ev; exact Hpf).
   match goal with |- context [put_rstate w0 q ?rs] => set (w1 := put_rstate w0 q rs) end.
   assert (S1 : R w w1) by (eapply same_trans; [exact S0|apply same_frame; reflexivity]).
   set (ab := is_abortable (r_abort cfg) (pr_out r)).
   set (w2 := if ab then ev_with_result w1 c KAbort q r else w1).
-  assert (S2 : R w w2) by (subst w2; destruct ab; [eapply same_trans; [exact S1|apply same_ev; apply N_plain; reflexivity]|exact S1]).
+  assert (S2 : R w w2) by (subst w2; destruct ab; [eapply same_trans; [exact S1|apply same_ev; exact Hab]|exact S1]).
   destruct (_ || _); [|exact S2].
   set (w3 := if negb ab then ev_with_result w2 c KRetriesExceeded q r else w2).
-  assert (S3 : R w w3) by (subst w3; destruct (negb ab); [eapply same_trans; [exact S2|apply same_ev; apply N_plain; reflexivity]|exact S2]).
+  assert (S3 : R w w3) by (subst w3; destruct (negb ab); [eapply same_trans; [exact S2|apply same_ev; exact Hex]|exact S2]).
   destruct (negb (r_return_last cfg)); exact S3.
 Qed.
 
 (* a retry policy at another position *)
-Lemma retry_loop_quiet q cfg inner : N KRetryScheduled q -> N KRetry q -> quiet inner ->
+Lemma retry_loop_quiet q cfg inner : N KRetryScheduled q -> N KRetry q -> N KPolFailure q -> N KPolSuccess q -> N KAbort q -> N KRetriesExceeded q -> quiet inner ->
   forall fuel c w, R w (snd (fst (retry_loop fuel cfg q inner c w))).
 Proof.
-  intros Hq1 Hq2 Hi. induction fuel as [|fuel IH]; intros c w; cbn [retry_loop].
+  intros Hq1 Hq2 Hpf Hps Hab Hex Hi. induction fuel as [|fuel IH]; intros c w; cbn [retry_loop].
   - cbn [fst snd]. apply same_frame. reflexivity.
   - pose proof (Hi c w) as S1. destruct (inner c w) as [r w1]. cbn [snd] in S1.
     destruct (is_canceled w1 c); [exact S1|]. destruct (rs_exceeded (get_rstate w1 q)); [exact S1|].
     assert (S2 : R w1 (snd (if is_failure (r_fpol cfg) (pr_out r) then retry_on_failure cfg q c (with_failure r) w1
                                    else (with_done r true true, ev_with_result w1 c KPolSuccess q (with_done r true true)))))
-      by (destruct (is_failure _ _); [apply same_retry_on_failure|cbn [snd]; apply same_ev; apply N_plain; reflexivity]).
+      by (destruct (is_failure _ _); [apply same_retry_on_failure; assumption|cbn [snd]; apply same_ev; exact Hps]).
     destruct (if is_failure (r_fpol cfg) (pr_out r) then _ else _) as [r2 w2]. cbn [snd] in S2.
     assert (S12 : R w w2) by (eapply same_trans; eassumption).
     destruct (pr_done r2); [exact S12|]. destruct (is_canceled w2 c); [exact S12|].
@@ -316,8 +321,10 @@ Lemma s_emit pos w k q o aux : Nn pos k q -> same pos w (emit w k q o aux).
 Proof. intros H. unfold same, emit. cbn [w_trace set_trace st]. apply stp_neutral. cbn [e_kind e_pos]. exact H. Qed.
 Lemma s_stamp pos w c : same pos w (stamp w c).
 Proof. unfold same, stamp. destruct (w_trace w) as [|e t] eqn:E; [rewrite E; reflexivity|]. cbn [w_trace set_trace st]. reflexivity. Qed.
-Lemma s_plain pos k q : retry_kind k = false -> Nn pos k q. Proof. left. assumption. Qed.
+Lemma s_plain pos k q : plain_kind k = true -> Nn pos k q. Proof. intros H. left. apply plain_not_retry, H. Qed.
+Lemma s_kind pos k q : retry_kind k = false -> Nn pos k q. Proof. left. assumption. Qed.
 #[local] Hint Resolve s_refl s_trans s_frame s_emit s_stamp s_plain : samedb.
+#[local] Hint Extern 1 (Nn _ _ _) => (apply s_kind; reflexivity) : samedb.
 
 Ltac inst_same pos lem := first [eapply lem with (N := Nn pos) | eapply lem]; eauto with samedb.
 
@@ -349,8 +356,9 @@ Lemma j_emit w k q o aux : Nj k q -> Jrel w (emit w k q o aux).
 Proof. intros H HJ pos. rewrite (s_emit pos w k q o aux (or_introl H)). apply HJ. Qed.
 Lemma j_stamp w c : Jrel w (stamp w c).
 Proof. intros HJ pos. rewrite (s_stamp pos w c). apply HJ. Qed.
-Lemma j_plain k q : retry_kind k = false -> Nj k q. Proof. auto. Qed.
+Lemma j_plain k q : plain_kind k = true -> Nj k q. Proof. apply plain_not_retry. Qed.
 #[local] Hint Resolve j_refl j_trans j_frame j_emit j_stamp j_plain : jdb.
+#[local] Hint Extern 1 (Nj _ _) => reflexivity : jdb.
 
 Ltac inst_j lem := first [eapply lem with (N := Nj) | eapply lem]; eauto with jdb.
 
